@@ -63,6 +63,10 @@ func checkRangeIndexHelper(ri *structs.Numbers, colVal string, operator sutils.F
 		case sutils.RNT_UNSIGNED_INT:
 			convertedVal, err := dtu.ConvertToUInt(colVal, 64)
 			if err != nil {
+				// a numeric literal that is not an unsigned integer (500.5, -3) still orders against the range
+				if floatVal, ferr := dtu.ConvertToFloat(colVal, 64); ferr == nil {
+					return doesFloatPassRangeFilter(operator, floatVal, float64(ri.Min_uint64), float64(ri.Max_uint64))
+				}
 				log.Errorf("qid=%d checkRangeIndexHelper: Got an invalid literal for range filter: %s", qid, err)
 				return false
 			}
@@ -70,6 +74,10 @@ func checkRangeIndexHelper(ri *structs.Numbers, colVal string, operator sutils.F
 		case sutils.RNT_SIGNED_INT:
 			convertedVal, err := dtu.ConvertToInt(colVal, 64)
 			if err != nil {
+				// a numeric literal that is not an integer (500.5) still orders against the range
+				if floatVal, ferr := dtu.ConvertToFloat(colVal, 64); ferr == nil {
+					return doesFloatPassRangeFilter(operator, floatVal, float64(ri.Min_int64), float64(ri.Max_int64))
+				}
 				log.Errorf("qid=%d checkRangeIndexHelper: Got an invalid literal for range filter: %s", qid, err)
 				return false
 			}
